@@ -619,6 +619,108 @@ def reorder(v, perm):
     return c
 
 
+def repeated_end_cases(rng, tries=12):
+    """Variants whose base graph names ONE fragment twice with a different fragment in between:
+    E-HC=C(L1)-spacer-C(L2)=CH-E with both double bonds stereo and both cut AT the double bond; the two identical end
+    groups =CH-E are one fragment definition.  Every listing order of the three (four, with a cut in the spacer) base
+    nodes.  Judged against the ground truth (sides) like every other variant."""
+    out = []
+    for _ in range(tries):
+        m = SMol()
+        e = rng.choice(HAL)
+        l1, l2 = rng.sample([x for x in HAL + ['C', 'O'] if x != e], 2)
+        a1, b1 = m.add('C'), m.add('C')
+        m.bond(a1, b1, 2)
+        e1 = m.add(e)
+        m.bond(a1, e1)
+        m.bond(b1, m.add(l1))
+        sp = [m.add('C')]
+        m.bond(b1, sp[0])
+        if rng.random() < 0.6:
+            sp.append(m.add('C'))
+            m.bond(sp[0], sp[1])
+        if rng.random() < 0.3:
+            m.bond(sp[0], m.add(rng.choice(HAL)))
+            m.chiral[sp[0]] = rng.choice('RS')
+        b2, a2 = m.add('C'), m.add('C')
+        m.bond(sp[-1], b2)
+        m.bond(b2, a2, 2)
+        m.bond(b2, m.add(l2))
+        e2 = m.add(e)
+        m.bond(a2, e2)
+        m.stereo = [[a1, b1], [b2, a2]]
+        send = rng.choice('ud')
+        m.side = {(e1, a1): send, (e2, a2): send}
+        for b, other in ((b1, a1), (b2, a2)):
+            ligs = [n for n in m.adj[b] if n != other]
+            s0 = rng.choice('ud')
+            pick = rng.choice([[ligs[0]], [ligs[1]], ligs])
+            for l in pick:
+                m.side[(l, b)] = s0 if l == ligs[0] else FLIP[s0]
+        g = m.graph()
+        gm = nx.isomorphism.GraphMatcher(g, g, node_match=lambda x, y: x['element'] == y['element'],
+                                         edge_match=lambda x, y: x['order'] == y['order'])
+        if sum(1 for _ in gm.isomorphisms_iter()) != 1:
+            continue
+        # parts: 0 = first end, then the middle (one or two parts), last = second end
+        cut = [(a1, b1), (b2, a2)]
+        mid_cut = False     # a cut in the spacer would leave two compatible `$a` descriptors across the P-Q base edge
+        desc = {a1: [('$a', 2)], b1: [('$a', 2)], b2: [('$a', 2)], a2: [('$a', 2)]}
+        if mid_cut:
+            desc.setdefault(sp[0], []).append(('$m', 1))
+            desc.setdefault(sp[1], []).append(('$m', 1))
+            cut.append((sp[0], sp[1]))
+        comps = components(m, cut)
+        end1 = next(c for c in comps if a1 in c)
+        end2 = next(c for c in comps if a2 in c)
+        mids = [c for c in comps if a1 not in c and a2 not in c]
+        mids.sort(key=lambda c: b1 not in c)
+        parts = [end1] + mids + [end2]
+        names = ['X'] + (['Y'] if len(mids) == 1 else ['P', 'Q']) + ['X']
+        texts, orders, toks, simtok = [], [], {}, {}
+        tX, oX, evX = render_part(m, end1, rng, desc)
+        twin = {a1: a2, e1: e2}
+        stX = stored_tokens(oX, evX)
+        for p, nm in zip(parts, names):
+            if p is end1:
+                t, ol, st = tX, oX, stX
+            elif p is end2:
+                t, ol, st = tX, [twin[x] for x in oX], {twin[x]: tk for x, tk in stX.items()}
+            else:
+                t, ol, ev = render_part(m, p, rng, desc)
+                st = stored_tokens(ol, ev)
+            texts.append(t)
+            orders.append(ol)
+            toks.update(st)
+            simtok[nm] = sorted([ol.index(x), tk] for x, tk in st.items())
+        owner = {x: i for i, p in enumerate(parts) for x in p}
+        pos = {x: (owner[x], orders[owner[x]].index(x)) for x in owner}
+        wb = {(l, an): pos[l] < pos[an] for (l, an) in m.side}
+        if not unambiguous(m, wb, toks):
+            STATS['ambiguous'] += 1
+            continue
+        edges = {frozenset((owner[x], owner[y])) for x, y in cut}
+        defs = []
+        for nm, t in zip(names, texts):
+            if '#%s=%s' % (nm, t) not in defs:
+                defs.append('#%s=%s' % (nm, t))
+        rng.shuffle(defs)
+        block = '.{' + ','.join(defs) + '}'
+        k = len(parts)
+        seen = set()
+        for pm in itertools.permutations(range(k)):
+            base = base_string(list(pm), edges, {i: names[i] for i in range(k)})
+            if base in seen:
+                continue
+            seen.add(base)
+            out.append({'s': base + block, 'mol': m.dump(), 'kind': 'repeated-fragment-name', 'nparts': k, 'texts': texts,
+                        'perm': list(pm), 'ambiguous': False, 'simtok': simtok,
+                        'wb': sorted([[l, an, bool(v), False] for (l, an), v in wb.items()])})
+        if len(out) >= 18:
+            break
+    return out
+
+
 STATS = {'ambiguous': 0, 'pysmiles_disagrees': 0, 'asymmetric_retry': 0}
 
 
@@ -861,6 +963,9 @@ class C15(common.Prop):
     def generate(self, ctx, n):
         rng = ctx.rng
         out = []
+        rep = repeated_end_cases(rng)
+        rng.shuffle(rep)
+        out += rep[:max(6, n // 12)]
         guard = 0
         while len(out) < n and guard < 50 * n:
             guard += 1
@@ -1089,6 +1194,10 @@ _WL = _wmol(['Br', 'C', 'C', 'Cl', 'C', 'F', 'I'], [(0, 1, 1), (1, 2, 1), (2, 3,
 # [H]/C(F)=C/Cl : H below, Cl above -> trans ; [H]/N=C(/C)F : H below, C above -> trans
 _WHX = _wmol(['H', 'C', 'F', 'C', 'Cl'], [(0, 1, 1), (1, 2, 1), (1, 3, 2), (3, 4, 1)], [(1, 3)], [(0, 1, 'd'), (4, 3, 'u')])
 _WIM = _wmol(['H', 'N', 'C', 'C', 'F'], [(0, 1, 1), (1, 2, 2), (2, 3, 1), (2, 4, 1)], [(1, 2)], [(0, 1, 'd'), (3, 2, 'u')])
+# C(/F)=C(/Cl)CC/C(Br)=C/F : F0 up, Cl3 up (cis); C5 (written before its anchor C6 with '/') down, F9 up (trans)
+_WRP = _wmol(['C', 'F', 'C', 'Cl', 'C', 'C', 'C', 'Br', 'C', 'F'],
+             [(0, 1, 1), (0, 2, 2), (2, 3, 1), (2, 4, 1), (4, 5, 1), (5, 6, 1), (6, 7, 1), (6, 8, 2), (8, 9, 1)],
+             [(0, 2), (6, 8)], [(1, 0, 'u'), (3, 2, 'u'), (5, 6, 'd'), (9, 8, 'u')])
 WITNESSES = [
     {'s': '{[#B][#A]}.{#A=F/C(Cl)=[$],#B=[$]=C(Br)/I}', 'mol': _W18, 'kind': 'known-finding witness', 'nparts': 2},
     {'s': '{[#A][#B]}.{#A=F/C(Cl)=[$],#B=[$]=C(Br)/I}', 'mol': _W18, 'kind': 'witness other order', 'nparts': 2},
@@ -1121,6 +1230,9 @@ WITNESSES = [
      'wb': [[0, 1, True, True], [4, 3, False, False]]},
     {'s': '{[#A]}.{#A=[H;w=0.5]/C(F)=C/Cl}', 'mol': _WHX, 'kind': 'witness explicit H annotated', 'nparts': 1},
     {'s': '{[#A]}.{#A=[H]/N=C(/C)F}', 'mol': _WIM, 'kind': 'witness imine explicit H', 'nparts': 1},
+    # one fragment named twice in the base graph with another in between, both double bonds cut (seeded/C15-6)
+    {'s': '{[#X][#Y][#X]}.{#X=[$]=C/F,#Y=[$]=C(/Cl)CC/C(Br)=[$]}', 'mol': _WRP, 'kind': 'witness repeated fragment name', 'nparts': 3},
+    {'s': '{[#M]}.{#M=C(/F)=C(/Cl)CC/C(Br)=C/F}', 'mol': _WRP, 'kind': 'witness repeated fragment name, single', 'nparts': 1},
     # two-digit ring labels before labelled stereocentres (seeded/C15-1)
     {'s': '{[#A][#B]}.{#A=OC%10CCCC%10[$],#B=[$][C;x=R](F)[C;x=S](Cl)Br}', 'mol': None, 'kind': 'witness ring label', 'nparts': 2},
 ]
